@@ -24,6 +24,7 @@ def discoveryMaxDelaySec : Int := Generated.discoveryMaxDelaySec
 def metadataRetryIntervalSec : Int := Generated.metadataRetryIntervalSec
 def initializeMetadataLoops : Bool := Generated.initializeMetadataLoops
 def initWaitSec : Int := Generated.initWaitSec
+def metadataRequired : List String := Generated.metadataRequired
 /-- cookie contents are encrypted iff a block key is passed to the cookie store -/
 def cookiesEncrypted : Bool := decide (2 ≤ cookieStoreKeyArgs) && cookieStoreAllPairsEncrypted
 def mainCookieName : String := Generated.mainCookieName
